@@ -8,6 +8,7 @@ usage: c16_validate.py [--harness PATH] [--driver PATH] [--n 1500] [--seed 1] [-
 import argparse, json, math, os, random, struct, subprocess, sys, collections
 
 LEAVES = ['const', 'rbf', 'seard', 'ess', 'rq', 'matern', 'white']
+HALF_INT_NU = (0.5, 1.5, 2.5)
 NPAR = {'const': 1, 'rbf': 1, 'ess': 2, 'rq': 2, 'matern': 2, 'white': 1}
 
 
@@ -35,7 +36,9 @@ def rleaf(rng, d, kinds=LEAVES, matern_nu=(1e-3, 1e3)):
         m = d if r < 0.85 else (d + rng.randint(1, 2))
         return (k, [rparam(rng) for _ in range(m)])
     if k == 'matern':
-        return (k, [rparam(rng, *matern_nu), rparam(rng)])
+        # the half-integer orders (closed forms exist; the ones everybody uses) EXACTLY, with high probability
+        nu = rng.choice(HALF_INT_NU) if rng.random() < 0.6 else rparam(rng, *matern_nu)
+        return (k, [nu, rparam(rng)])
     return (k, [rparam(rng) for _ in range(NPAR[k])])
 
 
@@ -93,11 +96,33 @@ def param_owner(t, i):
 def rpoints(rng, n, d, dup=True):
     scale = rng.choice([0.01, 0.1, 1.0, 1.0, 3.0, 10.0])
     X = [[rng.uniform(-1, 1) * scale for _ in range(d)] for _ in range(n)]
-    if dup and n >= 2 and rng.random() < 0.5:
+    if dup and n >= 2 and rng.random() < 0.7:
+        # duplicated rows: distance EXACTLY 0 between two different rows (at least one pair i != j)
         for _ in range(rng.randint(1, max(1, n // 3))):
-            i, j = rng.randrange(n), rng.randrange(n)
+            i = rng.randrange(n)
+            j = (i + 1 + rng.randrange(n - 1)) % n
             X[i] = list(X[j])
     return X
+
+
+def shape_tree(rng, d, shape, kinds):
+    """tree of a fixed shape: 'L' leaf, ('add'|'mul', s1, s2); the leaf kinds are consumed from `kinds` in order"""
+    it = iter(kinds)
+
+    def go(sh):
+        if sh == 'L':
+            return rleaf(rng, d, [next(it)])
+        return (sh[0], go(sh[1]), go(sh[2]))
+    return go(shape)
+
+
+def binary_schedule(rng):
+    """all (op, kindA, kindB): pairs with DIFFERENT parameter counts first (seard counts as 'different')"""
+    cnt = {'const': 1, 'rbf': 1, 'white': 1, 'ess': 2, 'rq': 2, 'matern': 2, 'seard': 0}
+    combos = [(op, a, b) for op in ('mul', 'add') for a in LEAVES for b in LEAVES]
+    rng.shuffle(combos)
+    combos.sort(key=lambda c: (cnt[c[1]] == cnt[c[2]], c[0] != 'mul'))
+    return combos
 
 
 def serX(X, d):
@@ -210,17 +235,36 @@ def main():
     a = ap.parse_args()
     rng = random.Random(a.seed)
 
+    # ---------------------------------------------------------------------------------- cases
+    # a fixed rotation, so that ANY n ≥ 8 contains every kind of case:
+    #   0: one leaf alone (kinds in rotation)            1: op(leaf, leaf), all (op, kind, kind) combinations in rotation,
+    #   2: depth-2 shapes (A∘B)∘C, A∘(B∘C), (A∘B)∘(C∘D)     unequal parameter counts first
+    #   3: random tree of depth ≤ 3
+    combos = binary_schedule(rng)
+    shapes2 = [lambda o1, o2, o3: (o1, (o2, 'L', 'L'), 'L'), lambda o1, o2, o3: (o1, 'L', (o2, 'L', 'L')),
+               lambda o1, o2, o3: (o1, (o2, 'L', 'L'), (o3, 'L', 'L'))]
     cases = []
     for c in range(a.n):
         d = rng.randint(1, 4)
         n = rng.randint(1, 20)
+        if n == 1 and rng.random() < 0.7:
+            n = rng.randint(2, 6)
         m = rng.randint(1, 20)
-        r = rng.random()
-        if c < 7 * 40:                      # every leaf kind alone, 40 times
-            t = rleaf(rng, d, [LEAVES[c % 7]], (1e-3, a.matern_nu_max))
+        mode, q = c % 4, c // 4
+        if mode == 0:
+            t = rleaf(rng, d, [LEAVES[q % 7]], (1e-3, a.matern_nu_max))
+        elif mode == 1:
+            op, ka, kb = combos[q % len(combos)]
+            t = (op, rleaf(rng, d, [ka]), rleaf(rng, d, [kb]))
+        elif mode == 2:
+            sh = shapes2[q % 3](rng.choice(['add', 'mul']), rng.choice(['add', 'mul']), rng.choice(['add', 'mul']))
+            # products first: the outer operator of every other case is a product
+            if q % 2 == 0:
+                sh = ('mul',) + sh[1:]
+            t = shape_tree(rng, d, sh, [rng.choice(LEAVES) for _ in range(4)])
         else:
-            depth = 1 if r < 0.3 else (2 if r < 0.85 else 3)
-            t = rtree(rng, d, depth)
+            r = rng.random()
+            t = rtree(rng, d, 1 if r < 0.3 else (2 if r < 0.85 else 3))
         X = rpoints(rng, n, d)
         Y = rpoints(rng, m, d)
         if rng.random() < 0.3 and n >= 1:   # share points between X and X'
@@ -228,24 +272,25 @@ def main():
                 Y[rng.randrange(m)] = list(X[rng.randrange(n)])
         cases.append((t, d, X, Y))
 
-    lines = []       # (case index, tag, line, rel, abs)
+    lines = []       # (case index, tag, line)
     for ci, (t, d, X, Y) in enumerate(cases):
         T = ser(t)
         p = nparams(t)
         theta = [rng.uniform(math.log(1e-3), math.log(1e3)) for _ in range(p + 3)]
-        has_matern = 'matern' in kinds_of(t)
         lines.append((ci, 'cov', f'kernel.cov - {T} {serX(X, d)} {serX(Y, d)}'))
         lines.append((ci, 'covXX', f'kernel.cov - {T} {serX(X, d)} {serX(X, d)}'))
         lines.append((ci, 'diag', f'kernel.diag - {T} {serX(X, d)}'))
         lines.append((ci, 'cwg', f'kernel.cov_with_grad - {T} {serX(X, d)}'))
         lines.append((ci, 'params', f'kernel.parameters - {T}'))
         lines.append((ci, 'npar', f'kernel.n_parameters - {T}'))
+        lines.append((ci, 'roundtrip', f'kernel.roundtrip - {T} {serX(X, d)}'))
         for tag, k in (('rep_eq', p), ('rep_less', max(p - 1, 0)), ('rep_less2', max(p - 2, 0)), ('rep_more', p + 1),
                        ('rep_more2', p + 3), ('rep_zero', 0)):
             lines.append((ci, tag, f'kernel.reparameterize - {T} L{k} ' + ' '.join(enc(v) for v in theta[:k])))
         for tag, k in (('con_eq', p), ('con_less', max(p - 1, 0)), ('con_more', p + 2)):
             lines.append((ci, tag, f'kernel.consume_parameters - {T} L{k} ' + ' '.join(enc(v) for v in theta[:k])))
     raw = [l[2] for l in lines]
+    line_of = {(ci, tag): line for ci, tag, line in lines}
     impl = run(a.harness, raw)
     model = run(a.driver, raw)
 
@@ -267,9 +312,10 @@ def main():
             if not r:
                 if 'matern' in kinds_of(t):
                     # the Matérn gradient is a forward difference with step 1e-10 of values of size ≤ 1: one ulp of the
-                    # covariance (fused multiply-add in Rust vs separate operations in Lean) moves it by ~2e-6
+                    # covariance (fused multiply-add in Rust vs separate operations in Lean) moves it by ~2e-6; the Temme
+                    # series near integer orders differs by up to ~50 ulp between the two (observed), i.e. ~1e-4
                     # (a noise entry of either sign times an overflowed factor gives ±inf / NaN: any two non-finite agree)
-                    r = cmp_struct(pi[1], pm[1], 1e-10, 1e-4 * scale, nonfinite_equal=True)
+                    r = cmp_struct(pi[1], pm[1], 1e-10, 5e-3 * scale, nonfinite_equal=True)
                 elif 'rq' in kinds_of(t):
                     # rational_quadratic.rs:129-132 `base.ln().mul_add(-mixture, d2/(2 s² base))` cancels; the fused
                     # rounding differs from the model's `a*b+c` by ≤ ulp(mixture·ln base)
@@ -280,13 +326,13 @@ def main():
         else:
             r = cmp_struct(pi, pm, 1e-10, 1e-300)
         if r:
-            mism.append({'tag': tag, 'kinds': kinds_of(t), 'line': line, 'impl': ia[:300], 'model': ma[:300], 'diff': r})
+            mism.append({'tag': tag, 'kinds': kinds_of(t), 'line': line, 'impl': ia, 'model': ma, 'diff': r})
     print(f'# lines {stats["lines"]}  cases {len(cases)}  model≠impl {len(mism)}')
     print('# implementation outcomes:', {k: v for k, v in stats.items() if k.startswith('impl:')})
     bykind = collections.Counter((m['tag'], tuple(m['kinds'])) for m in mism)
     for k, v in sorted(bykind.items(), key=lambda kv: -kv[1])[:30]:
         print('  mismatch', k, v)
-    for m in mism[:8]:
+    for m in sorted(mism, key=lambda m: len(m['line']))[:8]:
         print('  e.g.', m['tag'], m['diff'], '\n     ', m['line'][:240], '\n      impl ', m['impl'][:160], '\n      model', m['model'][:160])
 
     # ---------------------------------------------------------------------------------- implementation self-consistency
@@ -304,66 +350,115 @@ def main():
     for (ci, i, sgn, _), o in zip(fd_lines, fd_out):
         fd[ci][(i, sgn)] = parse(o)
 
-    defects = collections.defaultdict(list)     # (check, leaf kind) -> witnesses
+    # textbook closed forms of the Matérn covariance (Spec, evaluated by the driver) for leaves with ν ∈ {1/2, 3/2, 5/2}
+    cf_lines = []
+    for ci, (t, d, X, Y) in enumerate(cases):
+        if t[0] == 'matern' and t[1][0] in HALF_INT_NU:
+            cf_lines.append((ci, f'spec.kernel.matern_closed - {HALF_INT_NU.index(t[1][0])} {enc(t[1][1])} {serX(X, d)} {serX(Y, d)}'))
+    cf_out = run(a.driver, [l[1] for l in cf_lines]) if cf_lines else []
+    closed = {ci: (l, parse(o)) for (ci, l), o in zip(cf_lines, cf_out)}
 
-    def note(check, kinds, single, wit):
+    defects = collections.defaultdict(list)     # (check, leaf kind, level) -> [(op line, note)]
+
+    def note(check, kinds, single, line, why=''):
         for k in kinds:
-            defects[(check, k, 'leaf' if single else 'tree')].append(wit)
+            defects[(check, k, 'leaf' if single else 'tree')].append((line, why))
 
     for ci, (t, d, X, Y) in enumerate(cases):
         n = len(X)
         pc = per_case[ci]
         ks = kinds_of(t)
         single = t[0] not in ('add', 'mul')
-        T = ser(t)
         cxx, dg, cwg = pc['covXX'], pc['diag'], pc['cwg']
+        L = lambda tag: line_of[(ci, tag)]
+        # Matérn, half-integer order: covariance(X, X') against the textbook closed form
+        if ci in closed and not isinstance(pc['cov'], str) and not isinstance(closed[ci][1], str):
+            got, want = pc['cov'][0], closed[ci][1][0]
+            badq = [q for q in range(len(want)) if not close(got[q], want[q], 1e-8, 1e-290)]
+            if badq:
+                q = badq[0]
+                note('covariance ≠ Matérn closed form (ν = 1/2, 3/2, 5/2)', ks, single, L('cov'),
+                     f'ν = {t[1][0]}: entry ({q // len(Y)},{q % len(Y)}) = {got[q]!r}, closed form {want[q]!r}')
+        # reparameterize(parameters()) must rebuild the same kernel: same parameters, same covariance
+        rt = pc['roundtrip']
+        if isinstance(rt, str):
+            if not (isinstance(cxx, str) and cxx == rt == 'PANIC'):
+                note('reparameterize(parameters()) does not round-trip', ks, single, L('roundtrip'), f'answer {rt}')
+        elif not isinstance(pc['params'], str):
+            ps = pc['params'][0]
+            if len(rt[0]) != len(ps) or any(not close(u, v, 1e-12, 1e-12) for u, v in zip(rt[0], ps)):
+                note('reparameterize(parameters()) does not round-trip', ks, single, L('roundtrip'),
+                     f'parameters {ps!r} became {rt[0]!r}')
+            elif not isinstance(cxx, str):
+                amp = max([1.0] + [max(l[1]) for l in leaves(t) if l[0] in ('rq', 'matern')])
+                badq = [q for q in range(n * n) if not close(rt[1][q], cxx[0][q], 1e-9 * amp, 1e-290)
+                        and (math.isfinite(rt[1][q]) or math.isfinite(cxx[0][q]))]
+                if badq:
+                    q = badq[0]
+                    note('reparameterize(parameters()) does not round-trip', ks, single, L('roundtrip'),
+                         f'covariance entry ({q // n},{q % n}) {cxx[0][q]!r} became {rt[1][q]!r}')
         if isinstance(cxx, str):
-            note('covariance(X,X) ' + cxx, ks, single, f'kernel.cov - {T} {serX(X, d)} {serX(X, d)}')
+            note('covariance(X,X) ' + cxx, ks, single, L('covXX'))
             continue
         C = mat(cxx[0], n, n)
         if any(not math.isfinite(v) for v in cxx[0]):
             q = next(q for q in range(n * n) if not math.isfinite(cxx[0][q]))
-            note('covariance(X,X) not finite', ks, single,
-                 f'entry ({q // n},{q % n}) = {cxx[0][q]!r}: kernel.cov - {T} {serX(X, d)} {serX(X, d)}')
+            note('covariance(X,X) not finite', ks, single, L('covXX'), f'entry ({q // n},{q % n}) = {cxx[0][q]!r}')
         # symmetry
         if any(not close(C[i][j], C[j][i], 1e-12, 0) for i in range(n) for j in range(n)):
-            note('covariance(X,X) not symmetric', ks, single, f'kernel.cov - {T} {serX(X, d)} {serX(X, d)}')
+            note('covariance(X,X) not symmetric', ks, single, L('covXX'))
         # smallest eigenvalue
         me = min_eig(C)
         if me is not None:
             scale = max(1.0, max(abs(v) for v in cxx[0]))
             if me < -1e-8 * scale * n:
-                note('covariance(X,X) not PSD', ks, single, f'min eig {me:.3e}: kernel.cov - {T} {serX(X, d)} {serX(X, d)}')
+                note('covariance(X,X) not PSD', ks, single, L('covXX'), f'min eig {me:.3e}')
         # diag
         if isinstance(dg, str):
-            note('diag ' + dg, ks, single, f'kernel.diag - {T} {serX(X, d)}')
+            note('diag ' + dg, ks, single, L('diag'))
         else:
             dv = dg[0]
             if len(dv) != n:
-                note('diag length ≠ nrows', ks, single, f'len {len(dv)} for {n}x{d}: kernel.diag - {T} {serX(X, d)}')
+                note('diag length ≠ nrows', ks, single, L('diag'), f'len {len(dv)} for {n}x{d}')
             if any(not close(dv[i], C[i][i], 1e-9, 1e-300) for i in range(min(n, len(dv)))):
                 i = next(i for i in range(min(n, len(dv))) if not close(dv[i], C[i][i], 1e-9, 1e-300))
-                note('diag value ≠ covariance(X,X)[i][i]', ks, single,
-                     f'diag[{i}]={dv[i]!r} cov[{i}][{i}]={C[i][i]!r}: kernel.diag - {T} {serX(X, d)}')
+                note('diag value ≠ covariance(X,X)[i][i]', ks, single, L('diag'), f'diag[{i}]={dv[i]!r} cov[{i}][{i}]={C[i][i]!r}')
         # covariance_with_gradient
         if isinstance(cwg, str):
-            note('covariance_with_gradient ' + cwg, ks, single, f'kernel.cov_with_grad - {T} {serX(X, d)}')
+            note('covariance_with_gradient ' + cwg, ks, single, L('cwg'))
             continue
         G0, slices = cwg[0], cwg[1]
         bad = [q for q in range(n * n) if not close(G0[q], cxx[0][q], 1e-9, 1e-300)]
         if bad:
             q = bad[0]
-            note('cov of covariance_with_gradient ≠ covariance(X,X)', ks, single,
-                 f'entry ({q // n},{q % n}): {G0[q]!r} vs {cxx[0][q]!r}: kernel.cov_with_grad - {T} {serX(X, d)}')
+            note('cov of covariance_with_gradient ≠ covariance(X,X)', ks, single, L('cwg'),
+                 f'entry ({q // n},{q % n}): {G0[q]!r} vs {cxx[0][q]!r}')
+        # Matérn: the recorded autocov defect only concerns the UPPER triangle of coincident points; on and below the
+        # diagonal the two code paths are the same formula and must agree
+        if single and t[0] == 'matern':
+            badl = [q for q in bad if q % n <= q // n and (math.isfinite(G0[q]) or math.isfinite(cxx[0][q]))]
+            if badl:
+                q = badl[0]
+                note('cov of covariance_with_gradient ≠ covariance(X,X) on/below the diagonal', ks, single, L('cwg'),
+                     f'entry ({q // n},{q % n}): {G0[q]!r} vs covariance {cxx[0][q]!r}')
         GM = mat(G0, n, n)
         if any(not close(GM[i][j], GM[j][i], 1e-12, 0) for i in range(n) for j in range(n)):
             i, j = next((i, j) for i in range(n) for j in range(n) if not close(GM[i][j], GM[j][i], 1e-12, 0))
-            note('cov of covariance_with_gradient not symmetric', ks, single,
-                 f'entry ({i},{j})={GM[i][j]!r} ({j},{i})={GM[j][i]!r}: kernel.cov_with_grad - {T} {serX(X, d)}')
+            note('cov of covariance_with_gradient not symmetric', ks, single, L('cwg'),
+                 f'entry ({i},{j})={GM[i][j]!r} ({j},{i})={GM[j][i]!r}')
         if len(slices) != nparams(t):
-            note('number of gradient slices ≠ n_parameters', ks, single, f'kernel.cov_with_grad - {T} {serX(X, d)}')
+            note('number of gradient slices ≠ n_parameters', ks, single, L('cwg'))
+        cov_finite = all(math.isfinite(v) for v in G0)
         for i, sl in enumerate(slices):
             owner, oi = param_owner(t, i)
+            # a non-finite gradient entry next to a finite covariance (e.g. 0/0 at coincident points)
+            if cov_finite and owner != 'matern' and 'matern' not in ks:
+                nf = [q for q in range(n * n) if not math.isfinite(sl[q])]
+                if nf:
+                    q = nf[0]
+                    defects[('gradient entry not finite', owner, 'leaf' if single else 'tree')].append(
+                        (L('cwg'), f'param {i} ({owner}[{oi}]) entry ({q // n},{q % n}) = {sl[q]!r}, rows {q // n} and {q % n} '
+                                   f'{"coincide" if X[q // n] == X[q % n] else "differ"}'))
             up, dn = fd[ci].get((i, +1)), fd[ci].get((i, -1))
             up2, dn2 = fd[ci].get((i, +2)), fd[ci].get((i, -2))
             if any(v is None or isinstance(v, str) for v in (up, dn, up2, dn2)):
@@ -382,21 +477,22 @@ def main():
                     continue
                 err = abs(g - f2)
                 # rounding noise of the difference quotient ~ 1e-16·|cov|/H2; truncation error estimated by |f1 - f2|
-                if err > 1e-4 * max(abs(g), abs(f2)) + 2e-9 * cs * amp and abs(f1 - f2) < 0.05 * err:
+                # ... and the quotient is meaningful only where the covariance is locally linear over the step (second
+                # difference small against the first): ESS with ℓ ≪ 1 oscillates faster than any usable step
+                lin = abs(up2[0][q] + dn2[0][q] - 2 * cxx[0][q]) <= 0.25 * abs(up2[0][q] - dn2[0][q]) + 1e-12 * cs
+                if err > 1e-4 * max(abs(g), abs(f2)) + 2e-9 * cs * amp and abs(f1 - f2) < 0.05 * err and lin:
                     badq.append(q)
             if badq:
                 q = max(badq, key=lambda q: abs(sl[q] - num2[q]) if sl[q] == sl[q] and num2[q] == num2[q] else float('inf'))
-                wit = (f'param {i} ({owner}[{oi}]) entry ({q // n},{q % n}): gradient {sl[q]!r} vs central difference {num2[q]!r}: '
-                       f'kernel.cov_with_grad - {T} {serX(X, d)}')
-                defects[('gradient ≠ d covariance / d log-parameter', owner, 'leaf' if single else 'tree')].append(wit)
+                defects[('gradient ≠ d covariance / d log-parameter', owner, 'leaf' if single else 'tree')].append(
+                    (L('cwg'), f'param {i} ({owner}[{oi}]) entry ({q // n},{q % n}): gradient {sl[q]!r} vs central difference {num2[q]!r}'))
 
-    # reparameterize: round trip and reported counts
+    # reparameterize: reported counts
     for ci, (t, d, X, Y) in enumerate(cases):
         pc = per_case[ci]
         ks = kinds_of(t)
         single = t[0] not in ('add', 'mul')
         p = nparams(t)
-        T = ser(t)
         last = leaves(t)[-1][0]
         exp = {'rep_more': f'E:ExtraneousParameters 1', 'rep_more2': 'E:ExtraneousParameters 3'}
         if p >= 1:
@@ -407,48 +503,55 @@ def main():
         for tag, want in exp.items():
             got = pc[tag]
             if got != want:
-                line = next(l[2] for l in lines if l[0] == ci and l[1] == tag)
                 who = [last] if tag.startswith('rep_more') else ks
-                note(f'reparameterize {tag}: wrong report', who, single, f'got {got!r} expected {want!r}: {line}')
+                note(f'reparameterize {tag}: wrong report', who, single, line_of[(ci, tag)], f'got {got!r} expected {want!r}')
 
-    print('\n# implementation self-consistency (check, leaf kind, leaf-alone/in-tree): count, first witness')
+    print('\n# implementation self-consistency (check, leaf kind, leaf-alone/in-tree): count')
     for k in sorted(defects):
         print(f'  {k}: {len(defects[k])}')
     print()
-    badkinds = collections.defaultdict(set)
+    findings = []
     for k in sorted(defects):
         if k[2] == 'leaf':
-            badkinds[k[0]].add(k[1])
-            print(f'  {k[0]} [{k[1]}] x{len(defects[k])}\n     {min(defects[k], key=len)[:900]}')
-    print('\n# failures on trees none of whose leaves fails a related check alone (combinator suspects):')
-    groups = [('diag PANIC', 'diag length ≠ nrows', 'diag value ≠ covariance(X,X)[i][i]'),
-              ('cov of covariance_with_gradient not symmetric', 'cov of covariance_with_gradient ≠ covariance(X,X)',
-               'gradient ≠ d covariance / d log-parameter', 'covariance_with_gradient PANIC'),
-              ('reparameterize rep_more: wrong report', 'reparameterize rep_more2: wrong report'),
-              ('covariance(X,X) PANIC', 'covariance_with_gradient PANIC'),
-              ('covariance(X,X) not finite',),
-              ('covariance(X,X) not PSD', 'covariance(X,X) not symmetric')]
-    related = collections.defaultdict(set)
-    for g in groups:
-        u = set()
-        for c in g:
-            u |= badkinds[c]
-        for c in g:
-            related[c] |= u
-    seen = collections.Counter()
+            ws = sorted(defects[k], key=lambda w: len(w[0]))
+            print(f'  {k[0]} [{k[1]}] x{len(ws)}\n     {ws[0][1]}: {ws[0][0][:900]}')
+            findings.append({'check': k[0], 'kind': k[1], 'level': 'leaf', 'count': len(ws), 'line': ws[0][0], 'note': ws[0][1]})
+    # trees: the model-vs-implementation correspondence is what covers them; the self-consistency failures of a tree
+    # are reported only when none of its leaves belongs to a family DOCUMENTED (props/C16_notes.md D1-D11) to fail a
+    # related check alone — what remains points at the combinators
+    doc_bad = {
+        'diag': {'ess', 'rq', 'white'}, 'cwg': {'seard', 'white', 'matern'}, 'extra': {'ess', 'rq'},
+        'panic': {'matern', 'seard'}, 'finite': {'matern'}, 'psd': {'ess', 'matern'}, 'round': {'matern', 'seard'}, 'none': set()}
+    group_of = {'diag PANIC': 'diag', 'diag length ≠ nrows': 'diag', 'diag value ≠ covariance(X,X)[i][i]': 'diag',
+                'cov of covariance_with_gradient not symmetric': 'cwg', 'cov of covariance_with_gradient ≠ covariance(X,X)': 'cwg',
+                'gradient ≠ d covariance / d log-parameter': 'cwg', 'covariance_with_gradient PANIC': 'cwg+panic',
+                'reparameterize rep_more: wrong report': 'extra', 'reparameterize rep_more2: wrong report': 'extra',
+                'covariance(X,X) PANIC': 'panic', 'covariance(X,X) not finite': 'finite',
+                'covariance(X,X) not PSD': 'psd+finite', 'covariance(X,X) not symmetric': 'psd',
+                'gradient entry not finite': 'finite',
+                'reparameterize(parameters()) does not round-trip': 'round'}
+    print('\n# failures on trees none of whose leaves is documented to fail a related check alone (combinator suspects):')
+    comb = collections.defaultdict(list)
     for k in sorted(defects):
         if k[2] == 'tree':
-            for w in sorted(set(defects[k]), key=len):
-                line = w[w.index('kernel.'):] if 'kernel.' in w else w
-                toks = set(line.split())
-                if not (toks & related[k[0]]):
-                    seen[k[0]] += 1
-                    if seen[k[0]] <= 3:
-                        print(f'  {k[0]}: {w[:700]}')
-    print('  counts:', dict(seen))
+            bad = set()
+            for g in group_of.get(k[0], 'none').split('+'):
+                bad |= doc_bad[g]
+            for w in sorted(set(defects[k]), key=lambda w: len(w[0])):
+                if not (set(w[0].split()) & bad) and w not in comb[k[0]]:
+                    comb[k[0]].append(w)
+    combinator = []
+    for check, ws in sorted(comb.items()):
+        for w in ws[:3]:
+            print(f'  {check}: {w[1]}: {w[0][:700]}')
+        combinator.append({'check': check, 'count': len(ws), 'line': ws[0][0], 'note': ws[0][1]})
+    print('  counts:', {c['check']: c['count'] for c in combinator})
     if a.json:
-        json.dump({'mismatches': mism[:200], 'defects': {' | '.join(k): v[:5] for k, v in defects.items()},
-                   'stats': dict(stats), 'cases': len(cases)}, open(a.json, 'w'), indent=1)
+        json.dump({'version': 2, 'mismatches': sorted(mism, key=lambda m: len(m['line']))[:50], 'findings': findings,
+                   'combinator': combinator, 'stats': dict(stats), 'cases': len(cases),
+                   # version-1 key, kept for older readers
+                   'defects': {' | '.join(k): [f'{w[1]}: {w[0]}' for w in v[:3]] for k, v in defects.items()}},
+                  open(a.json, 'w'), indent=1)
     return 0
 
 
